@@ -1353,3 +1353,82 @@ Proof.
         replace (Z.to_nat (n - num)) with (S (Z.to_nat (n - (num + 1)))) by lia. cbn [firstn].
         rewrite <- app_assoc. cbn [app]. unfold zlen. cbn [List.length]. f_equal. f_equal. f_equal. lia.
 Qed.
+
+(** a linked-block element as the library lays it out: tables that are not the last are full of data blocks,
+    the last one holds data blocks followed by unused slots *)
+Record layout := mklayout {
+  lo_pre : list (Z * list (Z * (Z * Z)));      (* non-last tables: next ref, slots as (block ref, (offset, length)) *)
+  lo_last : list (Z * (Z * Z));                (* data blocks of the last table *)
+  lo_zeros : list Z                            (* its unused slots *)
+}.
+Definition lo_tables (l : layout) : list (Z * list Z) :=
+  map (fun t => (fst t, map fst (snd t))) (lo_pre l) ++ [(0, map fst (lo_last l) ++ lo_zeros l)].
+Definition lo_pre_ents (l : layout) : list (Z * Z) := List.concat (map (fun t => map snd (snd t)) (lo_pre l)).
+Definition lo_ents (l : layout) : list (Z * Z) := lo_pre_ents l ++ map snd (lo_last l).
+Definition lo_refs (l : layout) : list Z := List.concat (map snd (lo_tables l)).
+
+Definition slots_ok (blk : Z -> option (Z * Z)) (s : list (Z * (Z * Z))) : Prop :=
+  Forall (fun p => fst p <> 0 /\ blk (fst p) = Some (snd p)) s.
+
+Definition layout_ok (blk : Z -> option (Z * Z)) (l : layout) : Prop :=
+  Forall (fun t => fst t <> 0 /\ slots_ok blk (snd t)) (lo_pre l) /\ slots_ok blk (lo_last l) /\
+  Forall (fun r => r = 0) (lo_zeros l).
+
+Lemma slots_F2 : forall blk s, slots_ok blk s ->
+  Forall (fun r => r <> 0) (map fst s) /\ Forall2 (fun r e => blk r = Some e) (map fst s) (map snd s).
+Proof.
+  induction s as [|[r e] s IH]; intro H; cbn [map]; [split; constructor|].
+  destruct (IH (Forall_inv_tail H)) as [A B]. pose proof (Forall_inv H) as [C D]. cbn [fst snd] in *.
+  split; constructor; assumption.
+Qed.
+
+Lemma hl_tables_layout : forall blk blen total n pre last z,
+  Forall (fun t => fst t <> 0 /\ slots_ok blk (snd t)) pre -> slots_ok blk last -> Forall (fun r => r = 0) z ->
+  forall num accum out, num <= n ->
+  let ents := List.concat (map (fun t => map snd (snd t)) pre) in
+  exists acc',
+    hl_tables blk (map (fun t => (fst t, map fst (snd t))) pre ++ [(0, map fst last ++ z)]) blen total (Some n)
+              (num, accum, out)
+    = Some (num + zlen (take n num (ents ++ trim (map snd last) (accum + sumlen ents) blen total)), acc',
+            out ++ take n num (ents ++ trim (map snd last) (accum + sumlen ents) blen total)).
+Proof.
+  intros blk blen total n pre last z Hpre Hlast Hz. induction pre as [|[nx s] pre IH]; intros num accum out Hn; cbn zeta.
+  - cbn [map app List.concat sumlen hl_tables hl_full]. rewrite Z.add_0_r.
+    destruct (n <=? num) eqn:Ef.
+    + apply Z.leb_le in Ef. exists accum. unfold take. replace (Z.to_nat (n - num)) with 0%nat by lia. cbn [firstn].
+      unfold zlen. cbn [List.length]. rewrite app_nil_r, Z.add_0_r. reflexivity.
+    + destruct (slots_F2 blk last Hlast) as [A B].
+      destruct (hl_table_last blk blen total n _ _ z A Hz B num accum out Hn) as [acc' E]. rewrite E.
+      exists acc'. reflexivity.
+  - cbn [map app List.concat hl_tables hl_full fst snd].
+    pose proof (Forall_inv Hpre) as [Hnx Hs]. cbn [fst snd] in Hnx, Hs.
+    set (e1 := map snd s) in *. set (rest := List.concat (map (fun t => map snd (snd t)) pre)) in *.
+    destruct (n <=? num) eqn:Ef.
+    + apply Z.leb_le in Ef. exists accum. unfold take. replace (Z.to_nat (n - num)) with 0%nat by lia. cbn [firstn].
+      unfold zlen. cbn [List.length]. rewrite app_nil_r, Z.add_0_r. reflexivity.
+    + apply Z.leb_gt in Ef. destruct (slots_F2 blk s Hs) as [A B]. fold e1 in B.
+      rewrite (hl_table_nonlast blk nx blen total n _ _ Hnx A B) by lia.
+      destruct (nx =? 0) eqn:En; [apply Z.eqb_eq in En; contradiction|].
+      assert (num + zlen (take n num e1) <= n) as Hn'.
+      { unfold take, zlen. rewrite firstn_length. lia. }
+      destruct (IH (Forall_inv_tail Hpre) (num + zlen (take n num e1)) (accum + sumlen (take n num e1)) (out ++ take n num e1) Hn')
+        as [acc' E]. cbn zeta in E. fold rest in E. rewrite E. exists acc'.
+      (* both cases: the first table fits entirely, or the arrays fill up inside it *)
+      destruct (Z_le_gt_dec (zlen e1) (n - num)) as [Fit|Cut].
+      * assert (take n num e1 = e1) as T1 by (unfold take; apply firstn_all2; unfold zlen in Fit; lia).
+        rewrite T1. rewrite sumlen_app.
+        assert (take n num ((e1 ++ rest) ++ trim (map snd last) (accum + (sumlen e1 + sumlen rest)) blen total) =
+                e1 ++ take n (num + zlen e1) (rest ++ trim (map snd last) (accum + sumlen e1 + sumlen rest) blen total)) as T2.
+        { unfold take. rewrite <- app_assoc, firstn_app. rewrite firstn_all2 by (unfold zlen in Fit; lia).
+          f_equal. replace (accum + (sumlen e1 + sumlen rest)) with (accum + sumlen e1 + sumlen rest) by lia.
+          f_equal. unfold zlen. lia. }
+        rewrite T2. rewrite zlen_app, <- app_assoc. f_equal. f_equal. f_equal. lia.
+      * assert (take n (num + zlen (take n num e1))
+                     (rest ++ trim (map snd last) (accum + sumlen (take n num e1) + sumlen rest) blen total) = []) as T1.
+        { unfold take. unfold zlen at 1. rewrite firstn_length. replace (Z.to_nat (n - (num + Z.of_nat (Nat.min (Z.to_nat (n - num)) (List.length e1))))) with 0%nat by (unfold zlen in Cut; lia). reflexivity. }
+        rewrite T1.
+        assert (take n num ((e1 ++ rest) ++ trim (map snd last) (accum + sumlen (e1 ++ rest)) blen total) = take n num e1) as T2.
+        { unfold take. rewrite <- app_assoc, firstn_app.
+          replace (Z.to_nat (n - num) - List.length e1)%nat with 0%nat by (unfold zlen in Cut; lia). cbn [firstn]. apply app_nil_r. }
+        rewrite T2. unfold zlen at 2. cbn [List.length]. rewrite app_nil_r, Z.add_0_r. reflexivity.
+Qed.
